@@ -563,7 +563,10 @@ CLAIM = {
             'of a message that passes; ignore/exception/replace do what they say and the configured policy survives '
             'the creation of logs and destinations; for every reachable world the deliveries of a message are the list '
             'comprehension over selected logs and their destinations (each once, in order) and a "discard" of '
-            'discard_by_level implies no delivery. Comparison operators, enum orders, class texts and the bitset '
+            'discard_by_level implies no delivery; a log addressed by name (getLog( name), log( name, msg), '
+            'pre-check by name) is the log with exactly that name in every creation order - names that are '
+            'prefixes of each other included - so by name = by the id of that log, and the level-guarded macros '
+            '(pre-check, then StreamLog -> Logging::log) deliver exactly what the plain send delivers. Comparison operators, enum orders, class texts and the bitset '
             'size are regenerated from the source before every proof run; the rest of the model is tied by an '
             'exhaustive-small-scope correspondence check under ASan/UBSan.',
     'note': 'trusted: Coq kernel, extraction (ExtrOcamlBasic), regex-level translator, the hand-written model '
@@ -572,6 +575,8 @@ CLAIM = {
             '(several ids throw, as documented).',
     'technique': 'Coq proof: invariants over histories of settings and of world operations, finite-domain computation '
                  'lifted by forallb_forall for the class texts; translator for operators/enums; model/implementation '
-                 'correspondence, exhaustive histories of <= 2 (quick) / 3 (thorough) settings x 49 messages',
+                 'correspondence, exhaustive histories of <= 2 (quick) / 3 (thorough) settings x 49 messages; '
+                 'a family of log names with shared prefixes in every creation order, probed by name and by id '
+                 'through plain send, pre-check and the real LOG_LEVEL macros',
     'design_ref': 'DESIGN.md section 5, C14',
 }
